@@ -83,6 +83,8 @@ class IfPass(AbstractPass):
             tmp_file.name,
         ]
         _stdout, _stderr, returncode = process_event_notifier.run_process(cmd)
+        # the scratch file must not stay next to the candidate while the interestingness test runs
+        os.unlink(tmp_file.name)
         if returncode != 0:
             return (PassResult.ERROR, state)
         else:
